@@ -196,6 +196,8 @@ def band_task(c, deadline=BAND_DEADLINE):
         t['cutoff'] = c['cutoff']
     if c.get('fraction'):
         t['fraction'] = True
+    if c.get('verbose'):
+        t['verbose'] = True          # X1: same walk with the `if verbose:` blocks executed
     return t
 
 
@@ -333,6 +335,8 @@ def band_shrink(pool, driver, case, rounds=40, hanging=False, kind=None):
         if 'cutoff' in cur and cur['cutoff'] not in ('0/1', '1/1'):
             cands.append(dict(cur, cutoff='1/1'))
             cands.append(dict(cur, cutoff='0/1'))
+        if cur.get('verbose'):
+            cands.append({k: v for k, v in cur.items() if k != 'verbose'})
         if not cands:
             break
         cands = cands[:cap]
@@ -362,7 +366,7 @@ def band_snippet(c):
         "population = collections.Counter({w: Fraction(f) for w, f in items})   # exact rational walk",
         ("cutoff = Fraction(%r)" if c.get('fraction') else
          "cutoff = Fraction(%r); cutoff = int(cutoff) if cutoff.denominator == 1 else float(cutoff)") % str(cutoff_of(c)),
-        "print(preprocess.bandsample(population, %d, cutoff=cutoff))" % c['sample_size'],
+        "print(preprocess.bandsample(population, %d, cutoff=cutoff%s))" % (c['sample_size'], ', verbose=True' if c.get('verbose') else ''),
     ])
 
 
@@ -581,6 +585,12 @@ def run(rep, pool, driver, tier):
         {'population': [['a', 0], ['b', 0]], 'rank': [1, 0], 'sample_size': 1, 'cutoff': '0/1', 'shape': 'corner'},
         {'population': [['a', 3], ['b', 5]], 'rank': [1, 0], 'sample_size': 0, 'cutoff': '0/1', 'shape': 'corner'},
     ]
+    # X1: `verbose=True` for about a quarter of the calls (own random stream: the cases above stay the
+    # same); the model knows no verbose flag, so the result must be the one of verbose=False
+    rv = rng('C20/verbose')
+    for c in cases:
+        if rv.random() < 0.25:
+            c['verbose'] = True
     res = band_eval(pool, driver, cases, batch=120)
     if len(res) < len(cases):
         rep.count('band_cases_skipped_after_timeouts', len(cases) - len(res))
@@ -594,6 +604,7 @@ def run(rep, pool, driver, tier):
         rep.count('band_shape:' + c['shape'])
         rep.count('band_population:' + _bucket(n))
         rep.count('band_cutoff:' + ('default' if 'cutoff' not in c else 'given'))
+        rep.count('band_verbose:%s' % bool(c.get('verbose')))
         if 'err' in model:
             rep.count('band_model_outcome:' + model['err'])
         else:
